@@ -194,8 +194,8 @@ type MemAccess struct {
 type Machine struct {
 	F        *Func
 	Regs     map[string]Value
-	Params   []string // parameter names in frame order (8 bytes each)
-	Words    int64    // words per buffer
+	Params   []string                 // parameter names in frame order (8 bytes each)
+	Words    int64                    // words per buffer
 	Loaded   map[[2]int64]bitdom.Poly // (param, word) -> variable (per round)
 	Stored   map[[2]int64]bitdom.Poly // (param, word) -> value stored this round
 	StoreCnt map[[2]int64]int
